@@ -31,13 +31,13 @@ type ty struct {
 	key_ string
 }
 
-func tLeaf(n string) *ty          { return &ty{k: kLeaf, leaf: n} }
-func tStruct(fs ...*ty) *ty       { return &ty{k: kStruct, fs: fs} }
-func tArr(n int, el *ty) *ty      { return &ty{k: kArr, n: n, el: el} }
-func tOpt(in *ty) *ty             { return &ty{k: kOpt, in: in} }
-func tRes(er, ok *ty) *ty         { return &ty{k: kRes, er: er, ok: ok} }
-func (t *ty) composite() bool     { return t.k != kLeaf }
-func (t *ty) rootName() string    { return [...]string{"leaf", "struct", "array", "opt", "result"}[t.k] }
+func tLeaf(n string) *ty       { return &ty{k: kLeaf, leaf: n} }
+func tStruct(fs ...*ty) *ty    { return &ty{k: kStruct, fs: fs} }
+func tArr(n int, el *ty) *ty   { return &ty{k: kArr, n: n, el: el} }
+func tOpt(in *ty) *ty          { return &ty{k: kOpt, in: in} }
+func tRes(er, ok *ty) *ty      { return &ty{k: kRes, er: er, ok: ok} }
+func (t *ty) composite() bool  { return t.k != kLeaf }
+func (t *ty) rootName() string { return [...]string{"leaf", "struct", "array", "opt", "result"}[t.k] }
 
 // key is the canonical, human readable spelling used in case ids:
 // {a,b} struct, [n]T array, T? optional (an optional of an array is written ([n]T)?), (E!T) result.
